@@ -2,8 +2,10 @@
 
 Lean: Model/Stream.lean (receive buffer as chunk list + channel queue, read/readexactly/readuntil/readline with the
 search window as coded), Model/StreamProc.lean (client channel + process: data/EOF/exit-status/CLOSE ordering, wait(),
-redirect, drain), Props/C19.lean (chunk independence of readexactly for call sequences, read-to-EOF, read(n),
-readuntil single/multi separator with the window lemma, F10 negation witness, exit-with-complete-output, drain contract).
+redirect, drain incl. the process override with a redirect source registered), Model/StreamSrc.lean (redirect SOURCES
+of a process: set_reader/feed_data/feed_eof, when EOF goes out), Props/C19.lean (chunk independence of readexactly for
+call sequences, read-to-EOF, read(n), readuntil single/multi separator with the window lemma, F10 negation witness,
+two streams sharing the session's pause flag, exit-with-complete-output, drain contract, sources copy all then EOF).
 Correspondence: the Lean driver vs real SSHReader objects — driven directly through the session's entry points, through
 real channels from a raw peer (client stdout and server stdin side), through real channels under transport
 re-chunking — and vs a real SSHClientProcess fed every kind of ordering by a raw peer; drain against the real session.
@@ -32,6 +34,7 @@ from vlib import (Ctx, CorrResult, OracleResult, Failure, Disagreement, Hist, hx
 from props import _c19_impl as I
 from props import _c19_gen as G
 from props import _c19_translate
+from props import _c19_redir as RD
 
 PROPERTY = 'C19'
 MANIFEST = {
@@ -47,15 +50,30 @@ MANIFEST = {
             'CLOSE, loop turn, wait()/redirect moment and pause limit, wait() returns everything sent before CLOSE '
             '(exit_with_complete_output_partial, hypothesis: channel not torn down by a connection loss, with negation '
             'witness = finding F33); redirect targets get all data and write_eof exactly once (redirect_copies_all, '
-            'redirect_eof_exactly_once); drain contract; the model\'s window/pause/loop tests proved equal to the '
-            'expressions regenerated from stream.py (T1). Model tied to the code by differential runs against real '
-            'SSHReader/SSHClientProcess objects (direct, raw-peer over real channels both directions, transport '
-            're-chunking) and the property itself evaluated on the real code against an independent specification.',
+            'redirect_eof_exactly_once, with the witness that before the repair of A-C19-4 a target redirected with '
+            'recv_eof=False after EOF was closed all the same); readuntil/readline report an empty partial result only at EOF, '
+            'for EVERY session state incl. those where the OTHER stream of the session (shared _recv_buf_len/_read_paused) '
+            'caused the pause (readuntil_empty_partial_only_at_eof, readline_waits_on_empty_stream, witness of A-C19-3 '
+            'before its repair); drain on a process session — the override SSHProcess._should_block_drain with a redirect '
+            'source registered, waiters woken only by _unblock_drain calls — keeps waiting exactly while something blocks '
+            'and never across the loss of the channel (drain_contract, drain_never_outlives_channel, witness '
+            'drain_hangs_after_channel_loss_prefix = A-C19-1 before its repair); redirect sources of a process: for every '
+            'history of two well-behaved sources nothing is refused, the channel carries what they delivered in order and '
+            'EOF goes out when and only when the last one has ended (sources_copy_all_then_eof, witness of A-C19-2 before '
+            'its repair); the model\'s window/pause/loop/give-up/drain/EOF tests proved equal to the '
+            'expressions regenerated from stream.py and process.py (T1). Model tied to the code by differential runs against real '
+            'SSHReader/SSHClientProcess/SSHServerProcess objects (direct incl. two streams of one session, raw-peer over '
+            'real channels both directions, transport re-chunking, redirect targets of both kinds, redirect sources fed by '
+            'hand) and the property itself evaluated on the real code against an independent specification.',
     'note': 'regex separators are modelled for alternations of literals (arbitrary re.Pattern objects are not); '
             'receive-window arithmetic itself is C08; text mode exercised with a 1-byte codec (multi-byte boundaries '
-            'are C07); redirect/drain: sync writers and the stream-session drain are modelled, async file/pipe/'
-            'StreamWriter targets only exercised; readuntil results while reading is paused (more than a window '
-            'without separator) are checked by correspondence only; the raw peers of the harness are window-conforming '
+            'are C07); redirect/drain: sync writers, another process as target, and drain on stream and process '
+            'sessions are modelled, async file/pipe/StreamWriter targets only exercised; the pause/resume fan-out over '
+            'several sources (tasks started by resume_reading) and sources outliving their channel are reached by the '
+            'oracle only (asyncio task life cycle is not modelled); readuntil results while reading is paused (more than a '
+            'window without separator, or the other stream holding the window) are checked by correspondence, the '
+            'partial line returned in the second case is a recorded finding; cancellation of a waiting read is not '
+            'modelled (recorded finding); the raw peers of the harness are window-conforming '
             'senders (the model is run on the realized script); a peer that exceeds the window is an explicit oracle '
             'scenario whose expected outcome is the connection closed with Window exceeded',
     'technique': 'Lean 4 proof by induction over schedules / buffers / event lists + differential correspondence + '
@@ -72,6 +90,12 @@ TRUSTED = [
     '(validated by the correspondence on every run)',
     'window account of the raw peers: window advertised at channel open + the CHANNEL_WINDOW_ADJUST values seen '
     'arriving at the peer (class-level wrapper of SSHPacketLogger.log_received_packet, observation only) - bytes sent',
+    'drain model: a waiter completed by _unblock_drain runs before the next event (the harness settles the loop after '
+    'every event); the directly driven process session (SSHServerProcess over a stand-in channel, events = calls of '
+    'pause_writing / resume_writing / connection_lost / set_reader / feed_eof) stands for the real one, which the '
+    'oracle exercises through the public API on real channels',
+    'source model: a refused write (BrokenPipeError out of chan.write in a feeder task) is observed as the server '
+    'connection being torn down',
 ]
 ASSUMPTIONS = [
     'peer respects the advertised receive window (the raw peers of the harness do; a peer that does not gets the '
@@ -80,6 +104,8 @@ ASSUMPTIONS = [
     'the correspondence checks the prediction)',
     'readuntil theorems: fewer bytes than the pause limit arrive between separators (reading never paused)',
     'exit_with_complete_output: the channel is closed by CLOSE, not torn down by connection loss (F33 otherwise)',
+    'sources_copy_all_then_eof: both sources are registered (redirect() has returned) before the first of them ends, '
+    'each delivers only while registered, send_eof as by default',
 ]
 
 
@@ -150,8 +176,7 @@ def _determinate(toks: Sequence[Tuple]) -> bool:
     return True
 
 
-def _drain_cases() -> List[Tuple[List[str], List[str]]]:
-    evs = ['p', 'r', 'l0', 'l1']
+def _drain_cases(evs: Sequence[str] = ('p', 'r', 'l0', 'l1')) -> List[Tuple[List[str], List[str]]]:
     out = []
     for npre in range(0, 3):
         for pre in itertools.product(evs, repeat=npre):
@@ -219,6 +244,94 @@ def _conformance_stats(toks: Sequence[Tuple], real: Sequence[Tuple], hist: Hist,
             hist.hit(mode + ':part-of-the-stream-never-fitted')
 
 
+def conf_ok(evs: Sequence[Tuple]) -> bool:
+    """process event list whose end a redirect target on the far side can observe: conformant wire part, no disconnect"""
+    return is_conformant(evs) and not any(e[0] == 'x' for e in evs)
+
+
+def gen_late_redirect_events(rng: Any) -> Tuple[int, List[Tuple], Dict[str, Any]]:
+    """data and EOF (channel left open or closed) arrive, THEN stdout is redirected: to a file object (r) or to
+    another process's stdin (q), with recv_eof either way"""
+    limit = rng.choice([16, 64, 1024])
+    evs: List[Tuple] = [('d', bytes([65 + i]) * rng.randint(1, 6)) for i in range(rng.randint(0, 3))]
+    evs.append(('e',))
+    if rng.random() < 0.4:
+        evs.insert(rng.randint(0, len(evs)), ('s', rng.choice([0, 3])))
+    close_first = rng.random() < 0.3
+    if close_first:
+        evs.append(('c',))
+    evs += [('t',), (rng.choice('qqr'), rng.choice([0, 0, 1])), ('t',)]
+    if not close_first and rng.random() < 0.7:
+        evs += [('c',), ('t',)]
+    if rng.random() < 0.5:
+        evs += [('w',), ('t',)]
+    return limit, evs, {'late_wait': True, 'disconnect': False, 'redirect': True}
+
+
+def gen_two_stream_script(rng: Any) -> Tuple[int, List[Tuple]]:
+    """reader script for one stream while the OTHER stream of the session receives data (O<n>) and is read (T<n>):
+    the other stream's unread bytes hover around the pause limit"""
+    limit = rng.choice([4, 8, 8, 16, 32])
+    data = G.gen_stream(rng, 24)
+    chunks = G.gen_chunking(rng, data)
+    arr: List[Tuple] = [('d', c) for c in chunks]
+    if rng.random() < 0.6:
+        arr.append(('e',))
+    toks: List[Tuple] = []
+    other = 0
+    ai = 0
+
+    def other_step() -> None:
+        nonlocal other
+        r = rng.random()
+        if r < 0.55:
+            n = rng.choice([1, limit - 1, limit, limit + 1, max(1, limit - other), max(1, limit // 2)])
+            n = max(1, n)
+            toks.append(('O', n))
+            other += n
+        elif other > 0:
+            n = rng.choice([other, other, max(1, other // 2), 1])
+            toks.append(('T', n))
+            other -= n
+    for _ in range(rng.randint(1, 5)):
+        for _ in range(rng.choice([0, 1, 1, 2])):
+            other_step()
+        for _ in range(rng.choice([0, 1, 1, 2])):
+            if ai < len(arr):
+                k = rng.choice([1, 1, 2, len(arr)])
+                toks.append(('G', arr[ai:ai + k]))
+                ai += k
+        for _ in range(rng.choice([0, 1, 1])):
+            other_step()
+        r = rng.random()
+        rest = len(data)
+        if r < 0.35:
+            toks.append(('L',))
+        elif r < 0.6:
+            toks.append(('V', G.gen_seps(rng, data, 'single')[0]))
+        elif r < 0.7:
+            toks.append(('U', G.gen_seps(rng, data, 'multi')))
+        elif r < 0.8:
+            toks.append(('X', max(1, G.gen_n(rng, rest, limit))))
+        elif r < 0.9:
+            toks.append(('R', rng.choice([-1, max(1, G.gen_n(rng, rest, limit))])))
+        else:
+            toks.append(('Q',))
+        # what the call waits for arrives while it waits (groups directly after a call)
+        for _ in range(rng.choice([0, 0, 1, 2])):
+            if ai < len(arr):
+                k = rng.choice([1, 2, len(arr)])
+                toks.append(('G', arr[ai:ai + k]))
+                ai += k
+    if other > 0 and rng.random() < 0.7:
+        toks.append(('T', other))
+    if ai < len(arr):
+        toks.append(('G', arr[ai:]))
+    if rng.random() < 0.5:
+        toks.append(('L',))
+    return limit, toks
+
+
 def correspondence(ctx: Ctx) -> CorrResult:
     res = CorrResult()
     hist = Hist()
@@ -237,6 +350,27 @@ def correspondence(ctx: Ctx) -> CorrResult:
         expect.append(('reader-direct', {'mode': 'direct', 'limit': limit, 'text': text}, ';'.join(r)))
         _kinds(r, hist, 'direct:')
     res.nontrivial += len(set(lines))
+
+    # (1b) direct, TWO streams of one session: `_recv_buf_len` / `_read_paused` are shared, so unread data of the other
+    # stream pauses reading for the stream under test (O<n> = n bytes arrive for the other stream, T<n> = the
+    # application reads n of them)
+    rng = ctx.subrng('corr-two-streams')
+    two = [gen_two_stream_script(rng) for _ in range(ctx.n(800, 6000))]
+
+    async def run_two() -> List[Tuple[List[str], List[Tuple]]]:
+        o = []
+        for limit, toks in two:
+            try:
+                o.append(await I.run_script(I.DirectFeeder(limit, False, two_streams=True), toks))
+            except Exception as e:      # noqa: BLE001
+                o.append((['harness-scenario-failed:' + type(e).__name__], list(toks)))
+        return o
+    n0 = len(lines)
+    for (limit, _toks), (r, real) in zip(two, pair.run(run_two(), timeout=900)):
+        lines.append(I.script_line(limit, real))
+        expect.append(('reader-two-streams', {'mode': 'direct-two-streams', 'limit': limit}, ';'.join(r)))
+        _kinds(r, hist, 'two-streams:')
+    res.nontrivial += len(set(lines[n0:]))
 
     # (2) real channel, raw peer: client stdout side and server stdin side ----------------------------------------
     for mode, nq, nt in (('client', 600, 4000), ('server', 250, 1500)):
@@ -276,6 +410,15 @@ def correspondence(ctx: Ctx) -> CorrResult:
     # (4) process layer: raw peer plays every kind of ordering against a real SSHClientProcess -------------------
     rng = ctx.subrng('corr-proc')
     pcases = [G.gen_proc_events(rng, rng.random() < 0.7) for _ in range(ctx.n(500, 3000))]
+    # redirect targets of the kind that does not look at recv_eof itself (another process's stdin): `q` in place of
+    # `r`, in runs whose end the target's side can observe (conformant peer, connection stays up); plus runs made
+    # for it: data, EOF, then the redirect
+    rq = ctx.subrng('corr-proc-target-kind')
+    pcases = [(l, [('q', e[1]) if e[0] == 'r' else e for e in evs], info)
+              if (conf_ok(evs) and info['redirect'] and rq.random() < 0.6) else (l, evs, info)
+              for l, evs, info in pcases]
+    for _ in range(ctx.n(60, 400)):
+        pcases.append(gen_late_redirect_events(rq))
 
     async def run_procs() -> List[Tuple[str, List[Tuple]]]:
         o = []
@@ -300,6 +443,8 @@ def correspondence(ctx: Ctx) -> CorrResult:
         for k in ('late_wait', 'disconnect', 'redirect'):
             if info[k]:
                 hist.hit('proc:' + k)
+        if any(e[0] == 'q' for e in evs):
+            hist.hit('proc:redirect-to-process-stdin')
     res.nontrivial += len(set(lines[n0:]))
 
     # (5) drain: every short event sequence (exhaustive) ---------------------------------------------------------
@@ -311,7 +456,39 @@ def correspondence(ctx: Ctx) -> CorrResult:
         hist.hit('drain:' + r)
     res.nontrivial += len(dcases)
 
+    # (5b) drain on a PROCESS session (the override SSHProcess._should_block_drain): the same events plus a redirect
+    # source being registered (s) and ending (f), every sequence of length <= 2+2
+    pdcases = _drain_cases(['p', 'r', 'l0', 'l1', 's', 'f'])
+    out_pd = pair.run(RD.run_proc_drain(pdcases), timeout=600)
+    for (pre, post), r in zip(pdcases, out_pd):
+        lines.append('D ' + ' '.join(pre) + ' | ' + ' '.join(post))
+        expect.append(('drain-process', {'pre': pre, 'post': post}, r))
+        hist.hit('drain-process:' + r)
+    res.nontrivial += len(pdcases)
+
+    # (6) redirect sources of a real server process (two asyncio.StreamReaders fed by hand) vs Model/StreamSrc
+    rng = ctx.subrng('corr-sources')
+    scases = [RD.gen_source_script(rng) for _ in range(ctx.n(150, 1200))]
+
+    async def run_sources() -> List[str]:
+        o = []
+        for evs in scases:
+            try:
+                o.append(await asyncio.wait_for(RD.run_source_script(evs), 30))
+            except Exception as e:      # noqa: BLE001  (TimeoutError included)
+                o.append('harness-scenario-failed:' + type(e).__name__)
+        return o
+    n0 = len(lines)
+    for evs, r in zip(scases, pair.run(run_sources(), timeout=900)):
+        lines.append('R ' + ' '.join(RD.src_ev_str(e) for e in evs))
+        expect.append(('redirect-sources', {'events': [RD.src_ev_str(e) for e in evs]}, r))
+        hist.hit('sources:' + r.split('=')[0].split(':')[0])
+    res.nontrivial += len(set(lines[n0:]))
+    nsrc = len(scases)
+
     model = ctx.model(DRIVER, lines)
+    model = [RD.canon_source_model(m) if l.startswith('R ') and m.startswith('out=') else m
+             for l, m in zip(lines, model)]
     for line, (name, case, impl), mod in zip(lines, expect, model):
         res.cases += 1
         if mod != impl:
@@ -319,7 +496,8 @@ def correspondence(ctx: Ctx) -> CorrResult:
                                                   name='correspondence:' + name))
     res.histogram = dict(hist)
     res.samples = [{'line': lines[i], 'model': model[i], 'impl': expect[i][2]}
-                   for i in (0, len(direct), len(lines) - len(dcases) - 1, len(lines) - 1)]
+                   for i in (0, len(direct), len(lines) - nsrc - len(pdcases) - len(dcases) - 1,
+                             len(lines) - nsrc - 1, len(lines) - 1)]
     res.rule = ('seeded reader scripts (stream over a 4-letter alphabet + 15% random bytes, random chunking incl. '
                 '1-byte and single-chunk, groups of arrivals between calls, EOF/soft-EOF/signal/break/resize/feed_data '
                 'at random places, separators single/list/regex from substrings of the stream incl. infix-related and '
@@ -1424,6 +1602,134 @@ def oracle_drain(ctx: Ctx, res: OracleResult, hist: Hist) -> None:
     res.nontrivial += len(cases)
 
 
+# ---------------------------------------------------------------------------
+# oracle (e): redirect SOURCES, drain on a redirected stream, two streams sharing the session's pause limit
+# (scenario code: _c19_redir.py; one signature per root cause)
+
+REDIR_SCENARIOS = {
+    'drain-gone': RD.drain_gone, 'two-sources': RD.two_sources, 'other-stream-direct': RD.other_stream_direct,
+    'other-stream-wire': RD.other_stream_wire, 'late-redirect': RD.late_redirect, 'backpressure': RD.backpressure,
+    'closed-channel': RD.closed_channel, 'cancelled-read': RD.cancelled_read, 'undecodable': RD.undecodable,
+}
+
+
+def _enc(x: Any) -> Any:
+    if isinstance(x, (bytes, bytearray)):
+        return {'hex': bytes(x).hex()}
+    if isinstance(x, (list, tuple)):
+        return [_enc(y) for y in x]
+    return x
+
+
+def _dec(x: Any) -> Any:
+    if isinstance(x, dict) and 'hex' in x:
+        return bytes.fromhex(x['hex'])
+    if isinstance(x, list):
+        return [_dec(y) for y in x]
+    return x
+
+
+def _dec_args(name: str, args: List[Any]) -> List[Any]:
+    a = _dec(args)
+    if name == 'two-sources':
+        a[1] = [tuple(x) for x in a[1]]
+    return a
+
+
+def gen_two_source_script(rng: Any) -> List[Tuple]:
+    """both sources deliver and end, in a random interleaving"""
+    left = {'o': rng.randint(0, 3), 'E': rng.randint(0, 3)}
+    ended = {'o': False, 'E': False}
+    out: List[Tuple] = []
+    while not (ended['o'] and ended['E']):
+        k = rng.choice([x for x in 'oE' if not ended[x]])
+        if left[k] > 0 and rng.random() < 0.7:
+            out.append(('d' if k == 'o' else 'D', bytes([rng.choice(b'xyz\n')]) * rng.randint(1, 40)))
+            left[k] -= 1
+        else:
+            out.append(('z' if k == 'o' else 'Z',))
+            ended[k] = True
+    return out
+
+
+def redir_cases(ctx: Ctx) -> List[Tuple[str, List[Any]]]:
+    rng = ctx.subrng('oracle-sources')
+    cases: List[Tuple[str, List[Any]]] = []
+    # A-C19-1
+    for side in ('client', 'server'):
+        for how in ('exit', 'cut', 'disconnect'):
+            cases.append(('drain-gone', [side, how]))
+    # A-C19-2: the corpus (examples/redirect_server.py: the program writes to both, one closes early) + interleavings
+    for kind in ('pipe', 'stream'):
+        cases.append(('two-sources', [kind, [('d', b'hello\n'), ('z',), ('D', b'oops\n'), ('Z',)]]))
+        cases.append(('two-sources', [kind, [('D', b'oops\n'), ('Z',), ('d', b'hello\n'), ('z',)]]))
+        cases.append(('two-sources', [kind, [('z',), ('D', b'a'), ('D', b'b'), ('Z',)]]))
+        cases.append(('two-sources', [kind, [('d', b'hello\n'), ('D', b'oops\n')]]))
+    for _ in range(ctx.n(24, 200)):
+        cases.append(('two-sources', [rng.choice(['pipe', 'stream']), gen_two_source_script(rng)]))
+    # A-C19-3
+    cases.append(('other-stream-wire', [1024, b'', b'hello world\n']))
+    cases.append(('other-stream-wire', [64, b'', b'x\n']))
+    cases.append(('other-stream-wire', [1024, b'hello ', b'world\n']))
+    for limit, other, mine, op in ((16, 16, b'', 'readline'), (16, 16, b'', 'readuntil'), (16, 40, b'', 'readline'),
+                                   (16, 10, b'hello ', 'readline'), (8, 4, b'hello wo', 'readline'),
+                                   (16, 15, b'', 'readline'), (16, 3, b'abc', 'readuntil')):
+        cases.append(('other-stream-direct', [limit, other, mine, op]))
+    for _ in range(ctx.n(40, 400)):
+        limit = rng.choice([8, 16, 64])
+        m = rng.choice([0, 0, 0, 1, limit // 2, limit - 1])
+        other = rng.choice([limit, limit - m, limit - m, limit + 3, 2 * limit, max(0, limit - m - 1)])
+        cases.append(('other-stream-direct', [limit, other, bytes(rng.choice(b'abc') for _ in range(m)),
+                                              rng.choice(['readline', 'readuntil'])]))
+    # A-C19-4
+    for early in (True, False):
+        cases.append(('late-redirect', [early, b'one\n', b'two\n']))
+    cases.append(('late-redirect', [False, b'', b'x']))
+    # A-C19-6
+    for send_eof in (False, True):
+        cases.append(('backpressure', [300000, 65536, send_eof]))
+    for _ in range(ctx.n(0, 8)):
+        cases.append(('backpressure', [rng.choice([70000, 150000, 400000]), rng.choice([4096, 65536]), rng.random() < 0.5]))
+    # A-C19-8
+    for later in ('eof', 'data'):
+        cases.append(('closed-channel', [later]))
+    # A-C19-5 / A-C19-7 (recorded findings)
+    cases.append(('cancelled-read', [b'0123456789', 16, b'ABCDEFGHIJ']))
+    cases.append(('cancelled-read', [b'0123456789', 0, b'ABCDEFGHIJ', 'read']))
+    cases.append(('undecodable', [64]))
+    return cases
+
+
+async def eval_redir_case(name: str, args: List[Any]) -> Optional[Tuple[str, str]]:
+    try:
+        return await asyncio.wait_for(REDIR_SCENARIOS[name](*args), 90)
+    except asyncio.TimeoutError:
+        return 'process-scenario:timed-out:' + name, 'scenario %s%r did not finish within 90 s' % (name, tuple(args))
+    except Exception as e:      # noqa: BLE001
+        return ('process-scenario:failed:%s:%s' % (name, type(e).__name__),
+                'scenario %s%r could not be played: %s: %s' % (name, tuple(args), type(e).__name__, e))
+
+
+def oracle_sources(ctx: Ctx, res: OracleResult, hist: Hist) -> None:
+    cases = redir_cases(ctx)
+    fails: List[Failure] = []
+    for name, args in cases:
+        # one loop per scenario: a scenario that leaves the loop in a bad state cannot touch the next one
+        bad = pair.run(eval_redir_case(name, args), timeout=120)
+        res.evaluations += 1
+        hist.hit('sources:' + name)
+        if bad:
+            hist.hit('sources-fail:' + bad[0])
+            fails.append(Failure(signature=bad[0], what=bad[1],
+                                 replay={'kind': 'redir', 'scenario': name, 'args': _enc(args)}))
+    # findings recorded as known (not repaired) go last, so that a new root cause is reported in front of them
+    recorded = (RD.SIG_OTHER_CUT, RD.SIG_CANCELLED_READ, RD.SIG_UNDECODABLE)
+    fails.sort(key=lambda f: f.signature in recorded)
+    res.failures += _dedupe(fails)
+    res.nontrivial += len(cases)
+    res.samples.append({'redir_scenario': cases[-1][0], 'args': _enc(cases[-1][1])})
+
+
 def oracle(ctx: Ctx) -> OracleResult:
     res = OracleResult()
     hist = Hist()
@@ -1432,6 +1738,7 @@ def oracle(ctx: Ctx) -> OracleResult:
     oracle_hostile(ctx, res, hist)
     oracle_redirect(ctx, res, hist)
     oracle_drain(ctx, res, hist)
+    oracle_sources(ctx, res, hist)
     res.failures = _dedupe(res.failures)
     res.histogram = dict(hist)
     res.rule = ('(a) streams + call sequences (readexactly/read/readline/readuntil single, list, regex; infix-related '
@@ -1443,7 +1750,14 @@ def oracle(ctx: Ctx) -> OracleResult:
                 'against the public API; (b\') hostile peer: one packet exceeding what is left of the window by '
                 '1..5 windows (reader on either side, process; paused or not, buffer empty/partly/completely full) '
                 'must close the connection with Window exceeded and deliver only a prefix of what was sent inside the '
-                'window, a packet filling the window exactly must be delivered; (c) 9 redirect target kinds (incl. redirect set up after data+EOF arrived); (d) drain vs read/close/cut; distinct = distinct cases')
+                'window, a packet filling the window exactly must be delivered; (c) 9 redirect target kinds (incl. redirect set up after data+EOF arrived); (d) drain vs read/close/cut; '
+                '(e) redirect SOURCES and shared session state: drain() on a stream fed by a source while the channel is '
+                'closed / the transport cut / the connection closed (both sides); stdout and stderr of a server process '
+                'redirected from two sources (pipes, StreamReaders) with every interleaving of deliveries and ends; '
+                'readline/readuntil on one stream while unread data of the other fills the pause limit (direct and over a '
+                'real channel); redirect to another process\'s stdin with recv_eof=False before/after EOF; back-pressure '
+                'over two StreamReader sources; a source outliving its channel; a cancelled read; undecodable text '
+                'flushed inside read(); distinct = distinct cases')
     return res
 
 
@@ -1498,6 +1812,9 @@ def replay(ctx: Ctx, rep: Dict[str, Any]) -> List[Failure]:
         bad = pair.run(run_redirect_case(r['target'], bytes.fromhex(r['data']), [bytes.fromhex(p) for p in r['pieces']],
                                          r['window'], r['recv_eof'], chunker, ctx.tmpdir(), 'replay'))
         return [Failure('redirect-%s:data-or-eof-not-copied' % r['target'], bad, r)] if bad else []
+    if kind == 'redir':
+        bad = pair.run(eval_redir_case(r['scenario'], _dec_args(r['scenario'], r['args'])), timeout=120)
+        return [Failure(bad[0], bad[1], r)] if bad else []
     if kind == 'drain':
         bad = pair.run(run_drain_case(r['window'], r['total'], r['how']))
         return [Failure('drain:%s:contract-broken' % r['how'], bad, r)] if bad else []
